@@ -91,14 +91,14 @@ the second goroutine drops its item: it is neither pending nor logged — 0 ≤ 
 example : ∃ s0 s1 s2, CallRun lgCfg s0 s1 s2 1 2 0 .pubSlice [5, 6] ∧
     callKeys 2 [5, 6] (s0.obj 0).subs = [(2, 0, 0), (2, 1, 0)] ∧ s2.delivered = [(2, 0, 0)] ∧ s2.timedOut = [] ∧
     pendKeys s2 = [] :=
-  ⟨stateAt lgCfg [0, 5, 5, 4, 2], stateAt lgCfg [0, 5, 5, 4, 2, 3], stateAt lgCfg [0, 5, 5, 4, 2, 3, 4, 4, 2, 5, 4, 4],
-   callRun_of_paths lgCfg [0, 5, 5, 4, 2] [4, 4, 2, 5, 4, 4] 3 1 2 0 .pubSlice [5, 6] _ _ _
+  ⟨stateAt lgCfg [0, 4, 4, 4, 2], stateAt lgCfg [0, 4, 4, 4, 2, 3], stateAt lgCfg [0, 4, 4, 4, 2, 3, 4, 4, 2, 5, 4, 4],
+   callRun_of_paths lgCfg [0, 4, 4, 4, 2] [4, 4, 2, 5, 4, 4] 3 1 2 0 .pubSlice [5, 6] _ _ _
      (by decide) (by decide) (by decide) (by decide) (by decide),
    by decide, by decide, by decide, by decide⟩
 
 /-- non-vacuity of the second alternative of `log_bookkeeping_step`: a step that appends a delivery -/
-example : (∃ e ∈ (sys lgCfg).succ (stateAt lgCfg [0, 5, 5, 4, 2, 3, 4]),
-    e.2.delivered = (stateAt lgCfg [0, 5, 5, 4, 2, 3, 4]).delivered ++ [(2, 0, 0)]) := by decide
+example : (∃ e ∈ (sys lgCfg).succ (stateAt lgCfg [0, 4, 4, 4, 2, 3, 4]),
+    e.2.delivered = (stateAt lgCfg [0, 4, 4, 4, 2, 3, 4]).delivered ++ [(2, 0, 0)]) := by decide
 
 /-! ### 2. PubSync / PubSliceSync -/
 
@@ -154,8 +154,8 @@ example : ∃ s0 s1 s2, CallRun lgCfg s0 s1 s2 1 0 0 .pubSliceSync [7, 8] ∧ Va
     CloneDiscipline lgCfg ∧ s2.tasks[1]? = some (.pubRet 0) ∧
     callKeys 0 [7, 8] (s0.obj 0).subs = [(0, 0, 0), (0, 1, 0)] ∧ s2.delivered = [(0, 0, 0)] ∧
     s2.timedOut = [(0, 1, 0)] :=
-  ⟨stateAt lgCfg [0, 5, 5, 4, 0], stateAt lgCfg [0, 5, 5, 4, 0, 3], stateAt lgCfg [0, 5, 5, 4, 0, 3, 3, 3, 3],
-   callRun_of_paths lgCfg [0, 5, 5, 4, 0] [3, 3, 3] 3 1 0 0 .pubSliceSync [7, 8] _ _ _
+  ⟨stateAt lgCfg [0, 4, 4, 4, 0], stateAt lgCfg [0, 4, 4, 4, 0, 3], stateAt lgCfg [0, 4, 4, 4, 0, 3, 3, 3, 3],
+   callRun_of_paths lgCfg [0, 4, 4, 4, 0] [3, 3, 3] 3 1 0 0 .pubSliceSync [7, 8] _ _ _
      (by decide) (by decide) (by decide) (by decide) (by decide),
    rfl, rfl, by decide, by decide, by decide, by decide⟩
 
@@ -172,9 +172,9 @@ theorem sync_subs_constant (cfg : Cfg) (hd : CloneDiscipline cfg) (s0 s1 s2 : St
 the head of the loop -/
 example : ∃ s0 s1 s2 work cb, CallRun lgCfg s0 s1 s2 1 0 0 .pubSliceSync [7, 8] ∧ CloneDiscipline lgCfg ∧
     s2.tasks[1]? = some (.syncLoop 0 0 work cb) ∧ s2.delivered = [(0, 0, 0)] ∧ (s0.obj 0).subs = [0] :=
-  ⟨stateAt lgCfg [0, 5, 5, 4, 0], stateAt lgCfg [0, 5, 5, 4, 0, 3], stateAt lgCfg [0, 5, 5, 4, 0, 3, 3],
+  ⟨stateAt lgCfg [0, 4, 4, 4, 0], stateAt lgCfg [0, 4, 4, 4, 0, 3], stateAt lgCfg [0, 4, 4, 4, 0, 3, 3],
    [{ pid := 0, idx := 1, ev := 8, c := 0 }], false,
-   callRun_of_paths lgCfg [0, 5, 5, 4, 0] [3] 3 1 0 0 .pubSliceSync [7, 8] _ _ _
+   callRun_of_paths lgCfg [0, 4, 4, 4, 0] [3] 3 1 0 0 .pubSliceSync [7, 8] _ _ _
      (by decide) (by decide) (by decide) (by decide) (by decide),
    rfl, by decide, by decide, by decide⟩
 
@@ -216,8 +216,8 @@ theorem wait_complete (cfg : Cfg) (hd : CloneDiscipline cfg) (s0 s1 s2 : State) 
 example : ∃ s0 s1 s2, CallRun lgCfg s0 s1 s2 1 1 0 .pubWait [9] ∧ CloneDiscipline lgCfg ∧
     Variant.pubWait.isSync = false ∧ Variant.pubWait.isWait = true ∧ s2.tasks[1]? = some (.pubRet 1) ∧
     callKeys 1 [9] (s0.obj 0).subs = [(1, 0, 0)] ∧ s2.delivered = [(1, 0, 0)] :=
-  ⟨stateAt lgCfg [0, 5, 5, 4, 1], stateAt lgCfg [0, 5, 5, 4, 1, 3], stateAt lgCfg [0, 5, 5, 4, 1, 3, 3, 3],
-   callRun_of_paths lgCfg [0, 5, 5, 4, 1] [3, 3] 3 1 1 0 .pubWait [9] _ _ _
+  ⟨stateAt lgCfg [0, 4, 4, 4, 1], stateAt lgCfg [0, 4, 4, 4, 1, 3], stateAt lgCfg [0, 4, 4, 4, 1, 3, 3, 3],
+   callRun_of_paths lgCfg [0, 4, 4, 4, 1] [3, 3] 3 1 1 0 .pubWait [9] _ _ _
      (by decide) (by decide) (by decide) (by decide) (by decide),
    rfl, rfl, rfl, by decide, by decide, by decide⟩
 
@@ -251,8 +251,8 @@ theorem async_at_most_once (cfg : Cfg) (s0 s1 s2 : State) (i p o : Nat) (v : Var
 dropped after the Unsub); here the state in which the first pair has just been delivered and the second is pending -/
 example : ∃ s0 s1 s2, CallRun lgCfg s0 s1 s2 1 2 0 .pubSlice [5, 6] ∧ CloneDiscipline lgCfg ∧
     s2.delivered = [(2, 0, 0)] ∧ pendKeys s2 = [(2, 1, 0)] :=
-  ⟨stateAt lgCfg [0, 5, 5, 4, 2], stateAt lgCfg [0, 5, 5, 4, 2, 3], stateAt lgCfg [0, 5, 5, 4, 2, 3, 4, 4],
-   callRun_of_paths lgCfg [0, 5, 5, 4, 2] [4, 4] 3 1 2 0 .pubSlice [5, 6] _ _ _
+  ⟨stateAt lgCfg [0, 4, 4, 4, 2], stateAt lgCfg [0, 4, 4, 4, 2, 3], stateAt lgCfg [0, 4, 4, 4, 2, 3, 4, 4],
+   callRun_of_paths lgCfg [0, 4, 4, 4, 2] [4, 4] 3 1 2 0 .pubSlice [5, 6] _ _ _
      (by decide) (by decide) (by decide) (by decide) (by decide),
    rfl, by decide, by decide⟩
 
@@ -274,8 +274,8 @@ theorem timeout_exclusive (cfg : Cfg) (hd : CloneDiscipline cfg) (s : State) (hr
 /-- non-vacuity: a reachable state under the discipline with one delivery and one timeout (of different pairs) -/
 example : ∃ s, Conc.Reachable (sys lgCfg) s ∧ CloneDiscipline lgCfg ∧ s.delivered = [(0, 0, 0)] ∧
     s.timedOut = [(0, 1, 0)] :=
-  ⟨stateAt lgCfg [0, 5, 5, 4, 0, 3, 3, 3, 3],
-   runPath_reachable lgCfg [0, 5, 5, 4, 0, 3, 3, 3, 3] {} _ Conc.Reachable.init (by decide), rfl, by decide, by decide⟩
+  ⟨stateAt lgCfg [0, 4, 4, 4, 0, 3, 3, 3, 3],
+   runPath_reachable lgCfg [0, 4, 4, 4, 0, 3, 3, 3, 3] {} _ Conc.Reachable.init (by decide), rfl, by decide, by decide⟩
 
 end C10
 
